@@ -85,6 +85,7 @@ def run_unit(name, rlimit=None, extra_args=(), seed=None, keep=True):
     res['trusted_scan'] = [{'pattern': p, 'line': n, 'text': d} for p, n, d in gen.scan_trusted(text)]
     res['min_verified'] = u.min_verified
     cmd = ['verus', path, '--output-json', '--time-expanded', '--crate-name', name]
+    if u.rlimit: rlimit = max(int(rlimit or 0), u.rlimit * (4 if rlimit else 1))
     if rlimit: cmd += ['--rlimit', str(rlimit)]
     if seed is not None: cmd += ['-V', 'smt-seed=%d' % seed] if False else []
     cmd += list(extra_args)
